@@ -21,6 +21,7 @@ from __future__ import annotations
 
 import logging
 import random as _random
+import signal
 
 from harness import common
 
@@ -56,6 +57,17 @@ class R:
         cls.cs = cs
         cls.PT = workload.Placement.PlacementType
         cls.ready = True
+
+
+class ScheduleTimeout(BaseException):
+    """schedule() did not return within CALL_TIMEOUT_S (normal calls take milliseconds)."""
+
+
+CALL_TIMEOUT_S = 2.0
+
+
+def _on_alarm(signum, frame):
+    raise ScheduleTimeout()
 
 
 def ET(t: int):
@@ -486,13 +498,42 @@ def run_spec(spec: dict, capture: bool = True):
         cap = Capture(world)
         Capture.current = cap if capture else None
         err, placements = None, []
+        old_handler = signal.signal(signal.SIGALRM, _on_alarm)
+        signal.setitimer(signal.ITIMER_REAL, CALL_TIMEOUT_S)
         try:
             res = world.scheduler.schedule(ET(now), world.workload, world.worker_pools)
             placements = list(res)
+        except ScheduleTimeout:
+            signal.setitimer(signal.ITIMER_REAL, 0)
+            # The call never returned. If the wrapper saw the policy put the same request into
+            # batches again and again this is the placed-once clause failing without bound;
+            # otherwise it is a tool failure (exit 2), not a verdict.
+            seen, dup = set(), None
+            for b in cap.batches[:100000]:
+                for t in b["tids"]:
+                    if t in seen:
+                        dup = t
+                        break
+                    seen.add(t)
+                if dup is not None:
+                    break
+            if dup is None:
+                raise RuntimeError(f"schedule() did not return within {CALL_TIMEOUT_S}s at invocation {k}")
+            failures.append(
+                (k, "placed-twice-in-one-invocation:schedule-did-not-return",
+                 f"request {dup} batched repeatedly; {len(cap.batches)} batches created before the call was cut off")
+            )
+            err = "ScheduleTimeout"
         except Exception as e:  # noqa: BLE001 - the exception class is the outcome
             err = type(e).__name__
         finally:
+            signal.setitimer(signal.ITIMER_REAL, 0)
+            signal.signal(signal.SIGALRM, old_handler)
             Capture.current = None
+        if err == "ScheduleTimeout":
+            lean_invs.append({"now": now, "offered": cap.offered or [], "workers": cap.view or pre_view, "load_err": None})
+            obs.append({"err": err, "cancels": [], "batches": [], "state": [], "n_load_evict": 0})
+            break
 
         load_err = err if (err is not None and cap.phase == "load") else None
         offered = cap.offered if cap.offered is not None else [world.task_idx[t.id] for t in offered_tasks]
